@@ -107,17 +107,26 @@ def genomes_for(n):
 	return _tax[n]
 
 
-def check_row(sh, row, N, cpu=None):
+_PREV = [None]
+
+
+def check_row(sh, row, N, cpu=None, _record=True):
 	from gambit.query import get_result_item, QueryParams, QueryInput
 	n = len(row)
 	parent, thr, taxa, placement, genomes = genomes_for(n)
+	# the thresholds of the (same, reused) taxon objects change from row to row: what 'that distance alone would assign' must follow the
+	# thresholds in force at the time of the query, not remembered ones
+	thr = [(0.75, 0.25), (0.25, 0.75), (0.5, 0.5), (1.0, None)][(int(sum(row) * 4) + n + N) % 4]
+	taxo.set_attrs(taxa, thr=thr)
 	darr = np.array(row, dtype=F32)
 	item = get_result_item(taxo.fake_db(genomes), QueryParams(report_closest=N), darr, QueryInput('q'))
 	sh.evals += 1
 	exp = R.ref_closest(list(row), N)
 	gidx = {id(g): i for i, g in enumerate(genomes)}
 	got = [gidx.get(id(m.genome)) for m in item.closest_genomes]
-	case = dict(row=list(row), N=N, cpu=cpu)
+	case = dict(row=list(row), N=N, cpu=cpu, previous_call=_PREV[0])      # the call made just before on the same objects (hidden state)
+	if _record:
+		_PREV[0] = dict(row=list(row), N=N)
 	if got != exp:
 		fk = tie_only(row, exp, got)
 		sh.violation('closest-list-order', case, exp, got, finding_key=fk)
@@ -278,13 +287,14 @@ def replay(case, kind=None):
 		if CPUS.get(cpu) and os.environ.get('NPY_DISABLE_CPU_FEATURES') != CPUS[cpu]:
 			r = child.run('mc.props.c09', 'replay_child', dict(case=case), env={'NPY_DISABLE_CPU_FEATURES': CPUS[cpu]})
 			return r
-		check_row(sh, tuple(case['row']), case['N'], cpu)
-		return sh.violations
+		return replay_child(case)
 	return t_db(case['threads']).violations
 
 
 def replay_child(case):
 	sh = Shard()
+	if case.get('previous_call'):
+		check_row(Shard(), tuple(case['previous_call']['row']), case['previous_call']['N'], case.get('cpu'))
 	check_row(sh, tuple(case['row']), case['N'], case.get('cpu'))
 	return sh.violations
 
